@@ -33,10 +33,10 @@ plan('C11',
           'messages sent, in order. send: the bytes the library emits are deframed independently (payload, opcode, mask bit per role, minimal length form). loop: library client <-> library server over loopback. '
           'handshake: random keys and header spellings, accept key checked against python hashlib. hostile: reserved opcodes, RSV bits, absurd 64-bit lengths, oversized control frames, each stream also cut at every offset',
      jobs=[
-         Job(H, 'recv', 'asan', quick=1200, thorough=40000, shards=(5, 10), params=dict(maxbig=300000), tparams=dict(maxbig=4194304), batch=100),
-         Job(H, 'recv', 'plain', quick=2500, thorough=60000, shards=(3, 6), params=dict(maxbig=300000), tparams=dict(maxbig=4194304), batch=200),
-         Job(H, 'send', 'asan', quick=1200, thorough=40000, shards=(3, 6), params=dict(maxbig=300000), tparams=dict(maxbig=4194304), batch=100),
-         Job(H, 'send', 'plain', quick=2500, thorough=60000, shards=(2, 4), params=dict(maxbig=300000), tparams=dict(maxbig=4194304), batch=200),
+         Job(H, 'recv', 'asan', quick=1200, thorough=40000, shards=(5, 10), params=dict(maxbig=300000), tparams=dict(maxbig=4194304), batch=100, case_timeout=250),
+         Job(H, 'recv', 'plain', quick=2500, thorough=60000, shards=(3, 6), params=dict(maxbig=300000), tparams=dict(maxbig=4194304), batch=200, case_timeout=250),
+         Job(H, 'send', 'asan', quick=1200, thorough=40000, shards=(3, 6), params=dict(maxbig=300000), tparams=dict(maxbig=4194304), batch=100, case_timeout=250),
+         Job(H, 'send', 'plain', quick=2500, thorough=60000, shards=(2, 4), params=dict(maxbig=300000), tparams=dict(maxbig=4194304), batch=200, case_timeout=250),
          Job(H, 'loop', 'asan', quick=40, thorough=1500, shards=(4, 8), params=dict(maxbig=200000), tparams=dict(maxbig=2000000), batch=5, case_timeout=200),
          Job(H, 'loop', 'plain', quick=40, thorough=1500, shards=(4, 8), params=dict(maxbig=200000), tparams=dict(maxbig=2000000), batch=5, case_timeout=200),
          Job(H, 'handshake', 'asan', quick=600, thorough=20000, shards=(2, 4), params=dict(dump=1), batch=100),
